@@ -8,8 +8,8 @@ ENGINE = "E1 kani-cbmc"
 QUICK_MAX_S = 125
 FUNCTIONS = ["erltf::decode_borrowed -> parse_versioned_term_borrowed, parse_term_borrowed and every parse_*_borrowed; BorrowedTerm::to_owned",
              "erltf::decode on the same buffer", "errors.rs ContextualDecodeError/ParsingContext byte_offset"]
-ASSUMPTIONS = c01.ASSUMPTIONS + ["inputs are the reference (modern tag) encodings of the C01 shapes and their truncations at a symbolic offset; "
-                                 "equality of the two results is decided as: same variant and both denote the encoded value"]
+ASSUMPTIONS = c01.ASSUMPTIONS + ["agreement is decided as a chain through the reference: C01 c01_dec__<shape> fixes the owned decoder's variant and value on the "
+                                 "reference bytes, C13 requires the same of decode_borrowed(..).to_owned() (both decoders in one query do not finish)"]
 OUTSIDE = ["arbitrary byte strings and bit-flip mutations (free-form symbolic bytes are beyond CBMC on this decoder)", "containers deeper than 1"]
 SHAPES = ["int_small", "int_i32", "int_w5", "float", "big3", "atom1", "atom2", "bin0", "bin2", "bit1", "nil", "pid", "port", "ref1", "ref2",
           "extfun", "tuple0", "tuple1i", "list1", "imp1"]
@@ -32,9 +32,9 @@ def generate(tier, seed):
         cont = s in ("tuple1i", "list1", "imp1")
         for kind in ("complete", "truncated"):
             n = "c13_%s__%s" % (kind, s)
-            src.append(fn(n, "    let (t, r) = %s;\n    %s(&r, %d, %d, %d);\n    vk::leak(t); vk::leak(r);" % (c01.expr(s), kind, mode[0], mode[1], bits)))
-            hs.append(Harness(n, "decode_borrowed vs decode on the %s reference encoding of shape %s: acceptance agrees, to_owned() is the same variant "
-                                 "denoting the same value, error offsets lie within the input" % (kind, s),
+            src.append(fn(n, "    let (t, r) = %s;\n    %s(&r, %d, %d, %d, %d);\n    vk::leak(t); vk::leak(r);" % (c01.expr(s), kind, mode[0], mode[1], bits, c01.KIND[s])))
+            hs.append(Harness(n, "decode_borrowed on the %s reference encoding of shape %s: (complete) accepted, to_owned() has the variant and value the owned "
+                                 "decoder returns for these bytes (c01_dec__%s); (truncated) rejected with the offset inside the input" % (kind, s, s),
                               unwind=6, unwindset=c01.UWS + [(r"^c13::", 12)], cap_s=900, cuts=c01.CUTS_NOZ, mem_gb=12,
                               recursion=[(r"parse_term_from_tag|parse_term$|parse_term_borrowed|to_owned|refetf::(accepts_at|denotes|emit)", 2 if cont else 1)]))
     return "\n".join(src), hs
